@@ -113,6 +113,7 @@ class Check:
         self.discharged = 0
         self.theorems = []
         self.tmpdirs = []
+        shutil.rmtree(os.path.join(ROOT, "replays", pid), ignore_errors=True)
         self.work = os.path.join(BUILD, "work", pid)
         shutil.rmtree(self.work, ignore_errors=True)
         os.makedirs(self.work, exist_ok=True)
